@@ -83,4 +83,39 @@ size_t strnlen(const char *s, size_t maxlen)
 # define fprintf(...)               (0)
 # define time(t)                    ((time_t) 0)
 #endif
+/* ---- memcpy / memmove through the ghost index --------------------------------------------------------
+ * cbmc's array models of memcpy/memmove with a symbolic length do not terminate here on any back end
+ * (substr: minisat, z3 > 150 s, cvc5 "unknown").  Units that define VERIF_STRHELP_MEMCPY_AT_K get an
+ * OVER-APPROXIMATION instead (same idea as env.h's realloc): the n destination bytes receive ARBITRARY
+ * values, except byte vg_k (when vg_k < n), which receives the source byte.  The real functions copy
+ * every byte, so a proof against this model holds for the real ones; vg_k is arbitrary, so "byte vg_k
+ * copied" is the universally quantified statement.  Readability / writability of the two ranges is
+ * asserted (memcpy: also non-overlap, which the C standard requires). */
+#ifdef VERIF_STRHELP_MEMCPY_AT_K
+void *memcpy(void *dst, const void *src, size_t n)
+{
+    __CPROVER_assert(n == 0 || __CPROVER_r_ok(src, n), "memcpy: source range readable");
+    __CPROVER_assert(n == 0 || __CPROVER_w_ok(dst, n), "memcpy: destination range writable");
+    __CPROVER_assert(n == 0 || !__CPROVER_same_object(dst, src) ||
+                     __CPROVER_POINTER_OFFSET(dst) + n <= __CPROVER_POINTER_OFFSET(src) ||
+                     __CPROVER_POINTER_OFFSET(src) + n <= __CPROVER_POINTER_OFFSET(dst), "memcpy: ranges do not overlap");
+    if (n) {
+        char c = (vg_k < n) ? ((const char *) src)[vg_k] : 0;
+        __CPROVER_havoc_slice(dst, n);
+        if (vg_k < n) ((char *) dst)[vg_k] = c;
+    }
+    return dst;
+}
+void *memmove(void *dst, const void *src, size_t n)
+{
+    __CPROVER_assert(n == 0 || __CPROVER_r_ok(src, n), "memmove: source range readable");
+    __CPROVER_assert(n == 0 || __CPROVER_w_ok(dst, n), "memmove: destination range writable");
+    if (n) {
+        char c = (vg_k < n) ? ((const char *) src)[vg_k] : 0;   /* read BEFORE the destination changes */
+        __CPROVER_havoc_slice(dst, n);
+        if (vg_k < n) ((char *) dst)[vg_k] = c;
+    }
+    return dst;
+}
+#endif
 #endif
